@@ -40,6 +40,10 @@ like `1e-01` is a string for YAML 1.1 and may be refused, never answered wrongly
 float64 array of levels handed to a function is compared bit-for-bit with a pristine copy afterwards and
 handed over a second time (writable, read-only, strided and reversed views; arrays holding a level above the
 ceiling are refused every time).
+Wave 5: parameter sets on the lattices of the discretisation (lattice_psets: psi_s an odd multiple of half a layer,
+where the head of a layer EQUALS psi_s in binary64 - counted per set by head_ties; whole centimetres; round sd /
+theta_s / b), oracle only; PeatclsmTransmissivity attributes given new values on a live object (check_T_reassign:
+the unchanged code reads Ksmacz0 / alpha / zeta_max_cm at every call).
 """
 import concurrent.futures as cf
 import hashlib
@@ -227,6 +231,12 @@ def check_sy(psets, out, label, knots_for, seed=0):
         # what this process built before belongs to the failing input (replay rebuilds it first)
         pj = dict(level='sy', name=name, p=p, built_before=list(_BUILT))
         out.count('params:' + name.split('#')[0] + ('@yaml' if name.endswith('@yaml') else ''))
+        if name.startswith('oracle-lattice'):
+            ties = head_ties(p)
+            out.count('lattice:psi_s:%s' % ('head-equals-psi_s-somewhere' if ties else 'no-head-equals-psi_s'))
+            out.count('lattice:(level, layer) pairs with head == psi_s', ties)
+            if ties:
+                out.nontriv(('lattice-tie', tuple(sorted(p.items()))))
         how = 'yaml' if name.endswith('@yaml') else 'float'
         if how == 'yaml':
             pj['knots'] = []        # judged by the oracle alone (the replay does not certify tables for it)
@@ -759,6 +769,142 @@ def check_T_history(cases, out):
                 break
 
 
+# ------------------------------------------------------------- parameters on the lattices the code discretises with (wave 5)
+
+def _dec(x, places):
+    t = ('%.*f' % (places, x)).rstrip('0')
+    return t + '0' if t.endswith('.') else t
+
+
+HALF_CM = [_dec(-(2 * k + 1) * 0.005, 3) for k in range(1, 100)]        # -0.015, -0.025, ..., -0.995: odd multiples of half a layer
+WHOLE_CM = [_dec(-k * 0.01, 2) for k in range(1, 101)]                  # -0.01, -0.02, ..., -1.0
+SD_LATTICE = ['0.005', '0.01', '0.015', '0.05', '0.125', '0.25', '0.5', '0.995', '1.005', '1.5', '2']
+THETA_LATTICE = ['0.05', '0.1', '0.125', '0.25', '0.5', '0.75', '0.9', '1']
+B_LATTICE = ['0.25', '0.5', '1', '2', '2.5', '5', '7.5', '10', '20']
+
+
+def head_ties(p):
+    """Number of (water level, layer) pairs of the tabulation whose pressure head in cm, computed in binary64 on the
+    grids the code tabulates on, EQUALS psi_s in cm exactly (the branch point of the Campbell function)."""
+    psi = float(F(p['psi_s']))
+    zl, zu = np.linspace(-1, 1, 201), np.linspace(-0.99, 1.01, 201)
+    zm = 0.5 * (zl + zu)
+    return sum(int(np.count_nonzero((z[:, None] - zm[None, :]) * 100 == psi * 100)) for z in (zl, zu))
+
+
+def lattice_psets(seed, tier):
+    """Admissible parameter sets sitting on the lattices of the discretisation: psi_s an odd multiple of half the
+    1 cm layer thickness (the pressure head of a layer mid-point under a tabulated water level can then EQUAL psi_s)
+    or a whole number of cm; sd / theta_s / b on their own round lattices.  Oracle only (names start with oracle)."""
+    out = []
+    count = 24 if tier == 'quick' else 160
+    for k in range(count):
+        rng = C.rng_for(seed, PROP, 'lattice', k)
+        p = dict(PUBLISHED) if k % 4 == 0 else random_pset(rng)
+        kind = k % 8
+        if kind < 5:
+            p['psi_s'] = rng.choice(HALF_CM)
+        elif kind == 5:
+            p['psi_s'] = rng.choice(WHOLE_CM)
+        if kind in (3, 6, 7):
+            p['sd'] = rng.choice(SD_LATTICE)
+        if kind in (4, 6, 7):
+            p['theta_s'] = rng.choice(THETA_LATTICE)
+        if kind in (2, 6, 7):
+            p['b'] = rng.choice(B_LATTICE)
+        out.append(('oracle-lattice#%d' % k, p))
+    return out
+
+
+# ------------------------------------------------------------- attributes given new values on a live object (wave 5)
+
+T_ATTR = dict(Ks='Ksmacz0', alpha='alpha', zmax='zeta_max_cm')
+
+
+def T_reassign_cases(seed, tier):
+    """PeatclsmTransmissivity reads Ksmacz0, alpha and zeta_max_cm (its documented attributes, in __slots__) at every
+    call: a parameter sweep that gives a live object new values must get the function of the values it carries.
+    One attribute at a time, every attribute at least once, the first values coming back at the end."""
+    cases = []
+    for k in range(8 if tier == 'quick' else 60):
+        rng = C.rng_for(seed, PROP, 'T-reassign', k)
+        cur = dict(Ks=H.round_sig(H.loguniform(rng, 1e-2, 1e3), 3), alpha=rng.choice([3, 2, 1.5, 7.4, 1.25, 3.0]),
+                   zmax=rng.choice([1.0, 0.0, 5.0, -3.5, 12.25, 0.3]))
+        start, steps = dict(cur), []
+        names = ['alpha', 'Ks', 'zmax']
+        rng.shuffle(names)
+        for name in names + [rng.choice(names)]:
+            if name == 'alpha':
+                new = rng.choice([a for a in (3, 2, 2.2, 1.5, 7.4, 1.25, 4.5, 20.0) if a != cur['alpha']])
+            elif name == 'Ks':
+                new = H.round_sig(cur['Ks'] * rng.choice([0.5, 3.0, 10.0]), 3)
+            else:
+                new = cur['zmax'] + rng.choice([1.5, 4.0, -2.0])
+            steps.append([name, new])
+            cur[name] = new
+        steps += [[name, start[name]] for name in names]
+        tops = [10 * start['zmax']] + [10 * v for nme, v in steps if nme == 'zmax']
+        lo, hi = min(tops), max(tops)
+        levels = sorted({round(lo - H.loguniform(rng, 0.5, 2500.0), 3) for _ in range(4)}
+                        | {round(0.5 * (lo + hi), 3), round(hi + 3.0, 3)})
+        cases.append(dict(level='T-reassign', start=start, steps=steps, levels=levels))
+    return cases
+
+
+def check_T_reassign(cases, out):
+    def ask(T, z, form):
+        try:
+            with warnings.catch_warnings():
+                warnings.simplefilter('ignore')
+                return ('ok', float(T(np.array([z, z - 7.0]))[0] if form == 'array' else T(z)))
+        except Exception as e:  # pylint: disable=broad-except
+            return ('err', C.err_of(e))
+
+    for case in cases:
+        cur = dict(case['start'])
+        with warnings.catch_warnings():
+            warnings.simplefilter('ignore')
+            T = T_function(cur['Ks'], cur['alpha'], cur['zmax'])
+        history = []
+        for step in [None] + list(case['steps']):
+            if step is not None:
+                name, new = step
+                try:
+                    setattr(T, T_ATTR[name], new)
+                except AttributeError:
+                    out.count('T-reassign:refused:' + T_ATTR[name])     # no new value taken: nothing answered wrongly
+                    break
+                cur[name] = new
+                history.append('%s = %r' % (T_ATTR[name], new))
+                out.count('T-reassign:' + T_ATTR[name])
+            with warnings.catch_warnings():
+                warnings.simplefilter('ignore')
+                fresh = T_function(cur['Ks'], cur['alpha'], cur['zmax'])
+            ok = True
+            for z in case['levels']:
+                for form in ('scalar', 'array'):
+                    out.evaluations += 1
+                    got, ref = ask(T, z, form), ask(fresh, z, form)
+                    ost, ov = T_oracle(float(cur['Ks']), float(cur['alpha']), float(cur['zmax']), float(z))
+                    good = got == ref and got[0] == ost and (got[1] == ov or (got[0] == 'ok' and abs(got[1] - ov) <= float(
+                        T_tol(cur['alpha'], cur['zmax'], z)) * abs(ov)))
+                    if not good:
+                        out.violation('oracle', 'PEATCLSM transmissivity built with Ksmacz0=%r alpha=%r zeta_max_cm=%r%s gives '
+                                      '%s %r at level %r mm (%s); with the attributes it carries (Ksmacz0=%r alpha=%r '
+                                      'zeta_max_cm=%r) the published formula gives %s %r and a freshly built function %s %r'
+                                      % (case['start']['Ks'], case['start']['alpha'], case['start']['zmax'],
+                                         ''.join(', then ' + h for h in history), got[0], got[1], z, form, cur['Ks'],
+                                         cur['alpha'], cur['zmax'], ost, ov, ref[0], ref[1]), case=case)
+                        ok = False
+                        break
+                if not ok:
+                    break
+            if not ok:
+                break
+            if step is not None:
+                out.nontriv(('T-reassign', json.dumps(case['start'], sort_keys=True), len(history)))
+
+
 # ------------------------------------------------------------- parameter sets
 
 def random_pset(rng):
@@ -870,7 +1016,8 @@ def run(ctx, out):
     # a number written like 1e-01 (no dot) is a string for yaml.safe_load: refused or answered rightly
     twins += [('oracle-str#%d@yaml' % k, dict(PUBLISHED, **{f: v})) for k, (f, v) in enumerate(
         [('sd', '1e-01'), ('theta_s', '9e-01'), ('b', '1e+01'), ('psi_s', '-1e-02')])]
-    check_sy(psets + twins, out, 'sy', knots_for, seed)
+    check_sy(psets + twins + lattice_psets(seed, tier), out, 'sy', knots_for, seed)
+    check_T_reassign(T_reassign_cases(seed, tier), out)
     boundary_probes(out)
     check_T([dict(Ks=PUBLISHED_T['Ksmacz0'], alpha=PUBLISHED_T['alpha'], zmax=PUBLISHED_T['zeta_max_cm'], z=float(z),
                   form='float') for z in (0.0, -10.0, -500.0, -1500.0, 10.0, 10.5)]
@@ -893,7 +1040,13 @@ def run(ctx, out):
                 'and levels as ints / integer arrays / 0.0 / -0.0, numbers written like 1e-01 (strings for YAML 1.1: '
                 'refusal or the right value); each float64 array of levels kept by the caller, compared bit-for-bit '
                 'afterwards and handed over twice (writable, read-only, strided, reversed; with and without a '
-                'level above the ceiling).')
+                'level above the ceiling). Wave 5 (own random streams, oracle only): parameter sets on the lattices of '
+                'the discretisation - psi_s an odd multiple of half the 1 cm layer thickness (-0.015 .. -0.995: the head '
+                'of a layer can EQUAL psi_s; the number of such (level, layer) pairs is measured per set) or a whole '
+                'number of cm, sd / theta_s / b on round lattices - x all 201 levels; PeatclsmTransmissivity objects '
+                'whose attributes Ksmacz0 / alpha / zeta_max_cm (read at every call by the unchanged code) are given '
+                'new values one at a time on the live object: after each the object equals the published formula for '
+                'the attributes it carries and a freshly built function (scalar and array).')
     out.samples = [dict(params=PUBLISHED, knots=[200, 100, 0]), dict(T=PUBLISHED_T, level_mm=-500.0)]
     out.assumptions += [
         'the R reference is transcribed, not executed (Rscript is not installed): Model sy_knot_R / T_R and the '
@@ -920,6 +1073,8 @@ def replay(case, out):
         check_T([{k: case[k] for k in ('Ks', 'alpha', 'zmax', 'z', 'form', 'texts') if k in case}], out, 'replay_T')
     elif case['level'] == 'T-array':
         check_T_arrays([case], out)
+    elif case['level'] == 'T-reassign':
+        check_T_reassign([case], out)
     elif case.get('name') == 'sd-zero':
         boundary_probes(out)
     else:
